@@ -7,33 +7,39 @@ TIMEOUT = 5.0
 UNMODELLED = "unmodelled"
 LEVEL_TEXT = ("Lean theorems: parse(write a) = a (names, order, residues, length, detected alphabet) for every "
               "representable alignment, every wrap width w > 0, every number of rows and every length, by induction "
-              "over rows and over chunks (roundtrip_fasta, complete); executable writer / parser models of the Go code "
-              "tied to /repo by constant regeneration (line widths) and differential correspondence of writer bytes and "
-              "parser results; the round-trip predicate is evaluated on the implementation for every format x option, "
-              "multi-Phylip streams, auto-detection, chains of formats and .gz/.xz files.")
+              "over rows and over chunks - complete for FASTA (roundtrip_fasta); executable writer + parser models of all five "
+              "formats (Phylip with its 8 option combinations, multi-alignment streams and auto-detection as folds over them) "
+              "tied to /repo by constant regeneration (line / block widths) and differential correspondence of writer bytes "
+              "and parser results; the round-trip predicate is evaluated on the implementation for every format x option, "
+              "multi-Phylip streams, auto-detection, chains of formats and plain/.gz/.xz files. The Nexus round trip is "
+              "refuted for the code as it is (roundtrip_nexus_counterexample).")
 LEVEL_NOTE = ("Trusted: Lean kernel; harness; compress/gzip, xz, bufio, the file system (file round trips are observed on "
-              "the implementation and compared with the in-memory model); formats without a complete Lean proof are "
-              "listed in evidence 'partial'.")
+              "the implementation and compared with the in-memory model). Round-trip theorems for Phylip, Nexus, Clustal, "
+              "Stockholm, the multi-Phylip stream and auto-detection are open (models + correspondence only): see evidence 'partial'.")
 TECHNIQUE = "Lean 4 proof (induction over rows / chunks for every width) + differential correspondence"
 LEAN_MODULES = ["Gv.Props.C02"]
-REQUIRED_THEOREMS = ["Gv.Props.C02." + n for n in ["roundtrip_fasta"]]
-PARTIAL = []
-TRUSTED = ["compress/gzip, github.com/ulikunitz/xz, bufio, os (temp files): .gz/.xz round trips are observed, not modelled"]
+REQUIRED_THEOREMS = ["Gv.Props.C02." + n for n in ["roundtrip_fasta", "roundtrip_fasta_go", "roundtrip_nexus_counterexample"]]
+TRUSTED = ["compress/gzip, github.com/ulikunitz/xz, bufio, os (temp files): .gz/.xz round trips are observed, not modelled",
+           "version.Version of the harness build is the literal 'Unset' (Clustal header line)"]
 ASSUMPTIONS = ["the property's residue alphabet: IUPAC nucleotide codes ACGTU RYSWKM BDHV N or the 20 amino acids + B Z X, "
                "both cases, plus '-', '*', '?' ('.' is the match / gap character of Nexus and Stockholm and is outside the quantifier)",
-               "a representable alignment has pairwise distinct names (container invariant, C01)"]
+               "a representable alignment has pairwise distinct names (container invariant, C01)",
+               "'the same detected alphabet' = AutoAlphabet of the written rows over the character classes regenerated from the source"]
 RULE = ("alignments of 1..8 rows, L in {1,9,10,11,49,50,51,59,60,61,79,80,81,119,120,121,159,160,161,599,600,601} + random, "
         "nucleotide / protein IUPAC residues in both cases with - * ?, names of 1..30 printable non-blank bytes minus each "
         "format's delimiters (incl. numeric names), every format x writer option (8 Phylip combinations), written alphabet "
         "auto / forced, lists of 1..4 alignments for multi-Phylip, chains of 2..5 formats, auto-detection, plain/.gz/.xz "
         "files, rows spelling Nexus reserved words; non-trivial = L within 1 of a multiple of 10/50/60/80 or more than one block")
 
-MODELLED = {"fasta", "phylip", "stockholm", "clustal", "nexus"}
-for _f in ["phylip", "nexus", "clustal", "stockholm"]:
-    if _f not in MODELLED:
-        PARTIAL.append("no Lean writer/parser model yet for %s: the round trip is checked on the implementation by the "
-                       "predicate only (oracle answers `unmodelled`, no correspondence obligation, theorem open)" % _f)
-PARTIAL.append("multi-Phylip stream, auto-detection and chain-of-formats theorems are open: checked on the implementation only")
+PARTIAL = [
+    "FASTA: complete (roundtrip_fasta: every width w > 0, every alignment, every duplicate policy, with and without the patch)",
+    "Phylip (strict / one-line / no-block), Clustal, Stockholm: writer + parser models with byte-exact correspondence; "
+    "round-trip theorems stated in Props/C02.lean and OPEN",
+    "Nexus: model + correspondence; the round trip is FALSE for the code as it is (rows spelling a reserved word, "
+    "roundtrip_nexus_counterexample); the theorem under the extra hypothesis 'no row spells a reserved word' is open",
+    "multi-Phylip stream, auto-detection and chain-of-formats: modelled in the oracle (folds over the models), theorems open",
+    ".gz/.xz files: observed on the implementation only (compression is a trusted external)",
+]
 
 
 def wopts_of(fmt, rng=None, every=False):
